@@ -1,5 +1,6 @@
 import KoordVerif.Common.Proto
 import KoordVerif.Model.C01
+import KoordVerif.Model.C01Check
 /-
 Driver for C01.  One case = one history; two model instances (dimension 0 = cpu milli, 1 = memory bytes).
 Op lines (integers; a pod object is 7 tokens `id req0 req1 np hasNode term ign`):
@@ -7,6 +8,9 @@ Op lines (integers; a pod object is 7 tokens `id req0 req1 np hasNode term ign`)
   delquota <name>                                                        DeleteQuota
   reset                                                                  ResetQuota
   total <d0> <d1> | refresh <name>                                       (no effect on the accounting)
+  mode <strict>                                                          first line of a case; no observation.
+     strict = informer-consistent history: every block then carries `inv <b>` = the model state satisfies the
+     local equations (KoordVerif.C01.checkInv, sound by checkInv_sound) in both dimensions; the harness expects 1.
   padd <q> <pod> | pupd <newQ> <oldQ> <newpod> <oldpod> | pdel <q> <pod>
   reserve <q> <pod> | unreserve <q> <pod> | migrate <out> <in> <pod>
 After every op: `root d used npUsed request npRequest` per dimension, then per non-root quota (sorted by name)
@@ -39,7 +43,7 @@ def showRoot (k : Nat) (s : State) : String :=
   | none => s!"root {k} missing"
   | some q => s!"root {k} {q.used} {q.npUsed} {q.request} {q.npRequest}"
 
-def showState (s0 s1 : State) : List String :=
+def showState (strict : Bool) (s0 s1 : State) : List String :=
   let qs := sortBy (fun q : Quota => q.name) (s0.filter (fun q => q.name ≠ rootName))
   [showRoot 0 s0, showRoot 1 s1] ++
   qs.flatMap (fun q =>
@@ -49,7 +53,8 @@ def showState (s0 s1 : State) : List String :=
     let d1 := match get? s1 q.name with
       | some q1 => showDim 1 q1
       | none => "d 1 missing"
-    [head, showDim 0 q, d1]) ++ ["end"]
+    [head, showDim 0 q, d1]) ++
+  (if strict then [s!"inv {b2i (checkInv s0 && checkInv s1)}"] else []) ++ ["end"]
 
 /-- parse one op line for dimension `k` -/
 def parseOp (k : Nat) (line : String) : Option (Option Op) :=
@@ -83,17 +88,20 @@ def applyOp (s : State) : Option Op → State
   | some op => step s op
 
 def runCase (lines : List String) : List String :=
-  let rec go (ls : List String) (s0 s1 : State) (acc : List (List String)) : List (List String) :=
+  let rec go (ls : List String) (strict : Bool) (s0 s1 : State) (acc : List (List String)) : List (List String) :=
     match ls with
     | [] => acc
     | l :: t =>
-      match parseOp 0 l, parseOp 1 l with
-      | some o0, some o1 =>
-        let s0' := applyOp s0 o0
-        let s1' := applyOp s1 o1
-        go t s0' s1' (showState s0' s1' :: acc)
-      | _, _ => ["bad-op"] :: acc
-  (go lines init init []).reverse.flatten
+      match toks l with
+      | ["mode", m] => go t (m == "1") s0 s1 acc
+      | _ =>
+        match parseOp 0 l, parseOp 1 l with
+        | some o0, some o1 =>
+          let s0' := applyOp s0 o0
+          let s1' := applyOp s1 o1
+          go t strict s0' s1' (showState strict s0' s1' :: acc)
+        | _, _ => ["bad-op"] :: acc
+  (go lines false init init []).reverse.flatten
 
 end KoordVerif.C01
 
